@@ -33,6 +33,11 @@ CLAIMED = {
         text="Theorems: (1) for every gate name the inverse table accepts (45+ names), the circuit emitted for inv @ g(params) undoes the circuit emitted for g(params) up to a global phase for ALL real parameters (decision procedure over the cyclotomic-Laurent ring with soundness into R, on GatesGen.v regenerated from maps.py each run); the other names are rejected. (2) For every modifier stack of inv and integer pow of any length the model's _collapse_gate_modifiers returns (product of |k_i|, parity of inversions); it is invariant under permutation of the stack, multiplicative over concatenation, pow(0) gives 0 repetitions, pow(-k) equals inv with pow(k); ctrl/negctrl are rejected. (3) Over an arbitrary group of circuit meanings: the expansion of inv @ c for a call tree of custom gates nested to any depth (body reversed, inv pushed to the members) denotes the inverse of c, given (1) for its library leaves; pow(n) denotes the n-th power; pow(-n) the inverse of the n-th power. Tie: translator for (1); model vs real unroll() on all stacks up to length 3 over representative gates, every library name under five stacks, random stacks over nested custom gates; independent numeric oracles on the real output (G; inv @ G = identity, pow(k) = k copies, pow(-k) = k inverse copies, permuted stacks agree).",
         ref="DESIGN.md §6/C06",
         note="Trusted: Coq kernel + vm_compute; Reals axioms sig_forall_dec, sig_not_dec, functional_extensionality_dep (stdlib) for (1); translator/maps2coq.py; spec/gates_spec.py, coq/Gates/Basis.v; binary64 angles idealised as reals; " + LANG_NOTE + "Non-integer pow is outside the theorems (the model raises an internal error as the code does)."),
+    "C07": dict(engine="coq-lang",
+        technique="Coq theorems: the operator table regenerated from maps.OPERATOR_MAP computes the specified OpenQASM value for every operator and all operands; stores convert as specified for all widths; + exact correspondence on typed expression trees and boundary literals",
+        text="Theorems: for every binary operator of OPERATOR_MAP (re-translated from maps.py on each run) and all operand values, whenever the OpenQASM specification (Spec.spec_binop: arithmetic on mathematical integers / binary64 with bools as 0/1, comparisons and && || ! yielding bool, bitwise and shifts on integers) assigns a value, the model's Python-semantics operator yields the same number; unary table; uint[n] stores are z mod 2^n within [0,2^n), int[n] stores accept exactly [-2^(n-1), 2^(n-1)-1] and otherwise raise ValidationError, bool stores truthiness, for every width n>=1; the model's conversion refines the specification's store for every declared type; compound assignment uses the operator of its name. Tie: model vs real pyqasm on every (width x boundary literal) declaration, every operator on a grid of literals, unary operators, float->int stores, and random typed expression trees observed through gate angles, register indices, loop bounds, branch decisions and compound assignments; the reference semantics is evaluated on the same programs as an oracle.",
+        ref="DESIGN.md §6/C07",
+        note=LANG_NOTE + "Outside the theorems: int/int '/', % and >> of negatives (the property's own exclusions: specification silent), float %, ints beyond 2^53 converted to float, array elements and slices (not modelled: a change confined to analyzer.py array indexing is not detected, see DESIGN §10). ~ on a uint[n] identifier is a known finding."),
     "C02": dict(
         engine="coq-lang",
         technique="Coq theorems on the visitor model's operand resolution + exact correspondence with pyqasm on enumerated index/broadcast/alias/subroutine shapes",
